@@ -57,7 +57,9 @@ def header_ok(F, crate, hdr, kind, row, sized):
         t_ok = num is not None and num[0] == "call" and num[1] == T2 and num[2][0][0] == "cs" and num[2][0][2] == kind
     else:
         typ = vals.get("typ")
-        t_ok = typ == ("aggr", ("adt", "multiboot2_header::tags::HeaderTagType", kind, ()), ())
+        # the variant written as a literal or taken from a constant (`Self::ID`) the compiler evaluated to that variant
+        t_ok = typ == ("aggr", ("adt", "multiboot2_header::tags::HeaderTagType", kind, ()), ()) or \
+            (typ is not None and typ[0] == "cs" and len(typ) > 3 and typ[1] == "multiboot2_header::tags::HeaderTagType::" + kind and typ[2] == kind and not typ[3])
     sz = vals.get("size")
     if sz is not None and sz[0] == "unwrap" and sz[1][0] == "call" and "TryFrom<usize> for u32" in str(sz[1][1]):
         sz = sz[1][2][0]
